@@ -117,7 +117,15 @@ def gen_case(ctx, maxl=5, maxp=5, maxN=60):
     return Y, Yref, p, ref
 
 
+# --- default values as regenerated obligations (Generated/Defaults.lean <- harness/translate_defaults.py; stream defaults[...])
+import defaults_stream  # noqa: E402
+from common import all_pre_build as pre_build  # noqa: E402,F401,F811  (runs EVERY translate_*.py)
+LEAN_MODULES += ["PyomaVerif.Props.WiringDefaultsC12"]
+THEOREMS += ["PV.WiringDefaults.C12_runparams_defaults"]
+
+
 def correspondence(ctx):
+    defaults_stream.correspondence(ctx, props=('C12',))
     bh = _bh()
     n = ctx.n(40, 1200)
     for k in range(n):
